@@ -14,5 +14,5 @@ mkdir -p "$D/repo"
 if [ "$4" = "--tests" ]; then
   (cd "$D/repo" && go test -vet=off -count=1 $5 2>&1 | tail -5)
 fi
-VERIF_REPO="$D/repo" ./check.sh "$ID" "$TIER" 2>&1 | grep -E "VIOLATION|KNOWN|violations=|error" | head -8
+VERIF_EVIDENCE_DIR="$D/evidence" VERIF_REPO="$D/repo" ./check.sh "$ID" "$TIER" 2>&1 | grep -E "VIOLATION|KNOWN|violations=|error" | head -8
 exit ${PIPESTATUS[0]}
